@@ -641,6 +641,10 @@ func (c *handlerCtx) handleReply() {
 	if c.callCmd.stat.OK() {
 		stat := c.input.Status()
 		if stat.OK() {
+			// the reply frame could not be decoded (see startReadAndHandle)
+			stat = c.stat
+		}
+		if stat.OK() {
 			stat = c.pluginContainer.postReadReplyBody(c)
 		}
 		c.callCmd.stat = stat
